@@ -99,6 +99,14 @@ def random_states(seed, n, caps=CAPS):
     rng = random.Random(seed)
     ctx, scripts = base_ctx()
     cons = symbolic_tables(ctx, caps) + typing_constraints(ctx)
+    # creator links are acyclic (a UNION ALL recursion over a creator cycle never terminates in
+    # real SQLite either); dependency edges may be cyclic (those CTEs use UNION)
+    K = caps["node"]
+    rank = [z3.Int(f"crank[{j}]") for j in range(K)]
+    for j, r in enumerate(ctx.tables["node"].rows):
+        for c in range(K):
+            if c != j:
+                cons.append(z3.Implies(z3.And(bz(r.present), z3.Not(bz(r.vals["creator"].n)), r.vals["creator"].v == c + 1), rank[c] < rank[j]))
     presents = [r.present for ts in ctx.tables.values() for r in ts.rows if is_sym(r.present)]
     out = []
     tries = 0
@@ -131,8 +139,10 @@ def random_states(seed, n, caps=CAPS):
                         else:
                             hints.append(v.v == rng.randint(0, 3))
         rng.shuffle(hints)
+        hints = hints[:160]
         s.push()
         kept = 0
+        s.set("timeout", 400)  # a hint that is not quickly compatible is simply dropped
         for h in hints:
             s.push()
             s.add(h)
@@ -141,6 +151,7 @@ def random_states(seed, n, caps=CAPS):
                 # keep it: merge the frame by not popping (nested pushes are fine)
             else:
                 s.pop()
+        s.set("timeout", 20000)
         if s.check() != z3.sat:
             continue
         m = s.model()
@@ -215,6 +226,13 @@ def run(seed=0, nstates=12, verbose=False):
             # real
             real_err = None
             real_rows = None
+            budget = [0]
+
+            def _progress():
+                budget[0] += 1
+                return 1 if budget[0] > 2000 else 0  # abort a statement that runs away
+
+            con.set_progress_handler(_progress, 10000)
             try:
                 con.execute("BEGIN")
                 cur = con.execute(sql, args)
@@ -223,6 +241,11 @@ def run(seed=0, nstates=12, verbose=False):
                     real_rows = real_rows[:1]
             except sqlite3.IntegrityError as exc:
                 real_err = "IntegrityError"
+            except sqlite3.OperationalError as exc:
+                if "interrupted" in str(exc):
+                    con.close()
+                    continue  # real SQLite does not terminate on this state: outside the comparison
+                raise
             # engine
             eng_err = None
             eng_rows = None
